@@ -11,6 +11,7 @@ import Driver.Num
 import Driver.Flt
 import Driver.Fmt
 import Driver.Stream
+import Driver.Conc
 
 open Driver
 
@@ -28,6 +29,7 @@ def dispatch (c : Case) : Verdict :=
   else if fam.startsWith "flt." then Driver.Flt.handle c
   else if fam == "fmt" then Driver.Fmt.handle c
   else if fam == "sshist" || fam == "ssfault" then Driver.Stream.handle c
+  else if fam == "conc" then Driver.Conc.handle c
   else { corr := false, why := "no handler for op " ++ c.op }
 
 structure Stats where
